@@ -25,7 +25,7 @@ func init() {
 			"(P05-write-result) WriteToFile reports failure exactly when the OS write failed; (P05-propagate) every caller up to the command's Run returns the error; " +
 			"(P05-exit) exit status 0 only on the nil edge of the command error, all error codes are >= 1 and reach os.Exit. " +
 			"Not covered: atomicity of os.WriteFile itself and I/O faults; that the parser used for validation is the specification's (C01/C07).",
-		rules: []ruleFn{ruleP05Writers, ruleP05GuardedWrite, ruleP05ApplyAbort, ruleP05MakeResultGuard, ruleP05WriteResult, ruleP05Propagate, ruleP05Exit},
+		rules: []ruleFn{ruleP05Writers, ruleP05GuardedWrite, ruleP05ApplyAbort, ruleP05MakeResultGuard, ruleP05WriteResult, ruleP05Propagate, ruleP05Exit, ruleP05ToInt},
 		trusted: []string{
 			"call-graph soundness: VTA seeded by CHA with CHA fallback for interface invokes without VTA callee; no reflection/cgo/unsafe writes in module code (checked: module imports neither unsafe nor C)",
 			"go/ssa dominator tree",
